@@ -25,7 +25,7 @@ def mem_of(member, base):
 
 def m_eq(a, b):
     """`a == b` in either operand order"""
-    return E.m_cmp("==", a, b) | E.m_cmp("==", b, a)
+    return E.M(E.m_cmp("==", a, b) | E.m_cmp("==", b, a), "(%s == %s)" % (a.desc, b.desc))
 
 
 def is_zero(t):
